@@ -19,7 +19,7 @@ abbrev present (refs : List (Option Script × Obj)) : List Ref := refs.map mkRef
 
 /-! ## (i) statelessness -/
 
-private theorem stateless_aux {c : Codec} (hc : c.Lawful) (s : Strategy) {l0 l : List PRef}
+private theorem stateless_aux {c : Codec} (s : Strategy) {l0 l : List PRef}
     (h : All2 (Rel0 c) l0 l) (hok : ∀ p, p ∈ l → (planOf c s p).isSome = true) :
     ∃ ds, freshAll s l0 = some ds ∧
       statelessOK c (l0.map (·.2)) ds (l.map fun p => (mkRef (stepOne c s true p).1).obj) = true := by
@@ -30,7 +30,8 @@ private theorem stateless_aux {c : Codec} (hc : c.Lawful) (s : Strategy) {l0 l :
     obtain ⟨ds, hds, hall⟩ := ih fun q hq => hok q (by simp [hq])
     obtain ⟨f0, o0⟩ := p0
     obtain ⟨f, x⟩ := p
-    have ht : Tracked c o0 (storeIfAbsent c x) := store_tracked_of_rel0 hc hab
+    have ht : Tracked c o0 (storeIfAbsent c x) := store_tracked_of_rel0 hab
+    have hc : c.LawfulOn (dataOf o0) := hab.1.2
     have hf : f = f0 := hab.2.1
     subst hf
     have hp := hok (f, x) (by simp)
@@ -55,20 +56,21 @@ private theorem stateless_aux {c : Codec} (hc : c.Lawful) (s : Strategy) {l0 l :
     script succeeds on the *original* object alone (`freshAll`), and every object after the call
     carries exactly that result (`statelessOK`: spec, labels, annotations of `f original s`, plus the
     provider's annotation holding the original) — whatever `pre` was. -/
-theorem stateless (c : Codec) (hc : c.Lawful) (refs : List (Option Script × Obj))
+theorem stateless (c : Codec) (refs : List (Option Script × Obj))
+    (hc : ∀ p, p ∈ refs → c.LawfulOn (dataOf p.2))
     (hno : ∀ p, p ∈ refs → noOrig p.2 = true) (pre : List Strategy) (s : Strategy)
     (hok : (ensureRoutes c s (ensureSeq c pre (present refs))).2 ≠ .err) :
     ∃ ds, freshAll s refs = some ds ∧
       statelessOK c (refs.map (·.2)) ds
         ((ensureRoutes c s (ensureSeq c pre (present refs))).1.map (·.obj)) = true := by
-  have hrel := (ensureSeqP_rel hc pre (rel0_init c refs hno)).1
+  have hrel := (ensureSeqP_rel pre (rel0_init c refs hno hc)).1
   simp only [present, ensureSeq_present, ensureRoutes_present] at hok ⊢
   cases hflag : allPlanOK c s (ensureSeqP c pre refs) with
   | false => simp [hflag] at hok
   | true =>
     have hall : ∀ p, p ∈ ensureSeqP c pre refs → (planOf c s p).isSome = true := by
       simpa [allPlanOK, List.all_eq_true] using hflag
-    obtain ⟨ds, hds, h3⟩ := stateless_aux hc s hrel hall
+    obtain ⟨ds, hds, h3⟩ := stateless_aux s hrel hall
     exact ⟨ds, hds, by simpa [List.map_map, Function.comp_def] using h3⟩
 
 /-- non-vacuity of `stateless` and a *test* of the oracle: a concrete codec-free instance cannot be
@@ -84,7 +86,8 @@ example : freshAll ⟨.pct 20, [], none⟩
 
 /-- **C15 (i), corollary — steps never accumulate.**  Two different histories followed by the same
     successful step leave pointwise equivalent objects. -/
-theorem history_independent (c : Codec) (hc : c.Lawful) (refs : List (Option Script × Obj))
+theorem history_independent (c : Codec) (refs : List (Option Script × Obj))
+    (hc : ∀ p, p ∈ refs → c.LawfulOn (dataOf p.2))
     (hno : ∀ p, p ∈ refs → noOrig p.2 = true) (pre₁ pre₂ : List Strategy) (s : Strategy)
     (h₁ : (ensureRoutes c s (ensureSeq c pre₁ (present refs))).2 ≠ .err)
     (h₂ : (ensureRoutes c s (ensureSeq c pre₂ (present refs))).2 ≠ .err) :
@@ -92,8 +95,8 @@ theorem history_independent (c : Codec) (hc : c.Lawful) (refs : List (Option Scr
             ((ensureRoutes c s (ensureSeq c pre₁ (present refs))).1.map (·.obj)) = true
         ∧ statelessOK c (refs.map (·.2)) ds
             ((ensureRoutes c s (ensureSeq c pre₂ (present refs))).1.map (·.obj)) = true := by
-  obtain ⟨ds₁, hf₁, hs₁⟩ := stateless c hc refs hno pre₁ s h₁
-  obtain ⟨ds₂, hf₂, hs₂⟩ := stateless c hc refs hno pre₂ s h₂
+  obtain ⟨ds₁, hf₁, hs₁⟩ := stateless c refs hc hno pre₁ s h₁
+  obtain ⟨ds₂, hf₂, hs₂⟩ := stateless c refs hc hno pre₂ s h₂
   have : ds₁ = ds₂ := by rw [hf₁] at hf₂; exact Option.some.inj hf₂
   subst this
   exact ⟨ds₁, hs₁, hs₂⟩
@@ -104,6 +107,13 @@ theorem history_independent (c : Codec) (hc : c.Lawful) (refs : List (Option Scr
 theorem missing_object_no_write (c : Codec) (s : Strategy) (st : List Ref)
     (h : ∃ r, r ∈ st ∧ r.obj = none) : ensureRoutes c s st = (st, .err) :=
   ensureRoutes_missing c s st h
+
+/-- … and so does any sequence of calls: with a missing object the whole history is a no-op. -/
+theorem missing_object_seq_no_write (c : Codec) (steps : List Strategy) (st : List Ref)
+    (h : ∃ r, r ∈ st ∧ r.obj = none) : ensureSeq c steps st = st := by
+  induction steps with
+  | nil => rfl
+  | cons s ss ih => simp only [ensureSeq, ensureRoutes_missing c s st h, ih]
 
 /-! ## (ii) Finalise restores the user's configuration -/
 
@@ -142,35 +152,36 @@ theorem normalise_id (o : Obj) (hs : o.spec.isSome = true) (hl : o.labels ≠ so
         | cons _ _ => rfl
     simp [normalise, h1, h2]
 
-private theorem restore_all {c : Codec} (hc : c.Lawful) {l0 l : List PRef} (h : All2 (RelT c) l0 l) :
+private theorem restore_all {c : Codec} {l0 l : List PRef} (h : All2 (RelT c) l0 l) :
     All2 (fun (o : Obj) (x : Option Obj) => decide (x = some (normalise o)) = true)
       (l0.map (·.2)) (l.map fun p => (mkRef (p.1, (restoreObject c p.2).1)).obj) := by
   induction h with
   | nil => exact .nil
   | cons hab _ ih =>
     refine .cons ?_ ih
-    simp [mkRef, restore_of_tracked hc hab.1 hab.2.2]
+    simp [mkRef, restore_of_tracked hab.1.2 hab.1.1 hab.2.2]
 
 /-- **C15 (ii) — exact restore.**  For any number of references (all existing, none carrying the
     provider's annotation) and any non-empty sequence of steps — succeeding, failing or repeated —
     Finalise reports a modification and leaves every object at `normalise` of what the user had:
     same spec, same labels, same annotations, the provider's annotation gone. -/
-theorem finalise_restores (c : Codec) (hc : c.Lawful) (refs : List (Option Script × Obj))
+theorem finalise_restores (c : Codec) (refs : List (Option Script × Obj))
+    (hc : ∀ p, p ∈ refs → c.LawfulOn (dataOf p.2))
     (hno : ∀ p, p ∈ refs → noOrig p.2 = true) (steps : List Strategy) (hne : steps ≠ []) :
     restoreOK (refs.map (·.2)) ((finalise c (ensureSeq c steps (present refs))).1.map (·.obj)) = true
     ∧ (refs ≠ [] → (finalise c (ensureSeq c steps (present refs))).2 = .ok true) := by
-  have hrel := (ensureSeqP_rel hc steps (rel0_init c refs hno)).2 hne
+  have hrel := (ensureSeqP_rel steps (rel0_init c refs hno hc)).2 hne
   simp only [present, ensureSeq_present, finalise_present]
   constructor
   · simp only [restoreOK, List.map_map, Function.comp_def]
     apply all2_of_All2
-    exact restore_all hc hrel
+    exact restore_all hrel
   · intro hrefs
-    clear hno
+    clear hno hc
     generalize ensureSeqP c steps refs = l at hrel
     cases hrel with
     | nil => exact absurd rfl hrefs
-    | cons hab _ => simp [restore_of_tracked hc hab.1 hab.2.2]
+    | cons hab _ => simp [restore_of_tracked hab.1.2 hab.1.1 hab.2.2]
 
 /-- **C15 (ii), untouched case.**  Without any EnsureRoutes (or when a referenced object is missing,
     so that EnsureRoutes never wrote, see `missing_object_no_write`) Finalise changes nothing. -/
@@ -260,6 +271,65 @@ theorem ensure_idempotent_oracle (c : Codec) (s : Strategy) (st : List Ref) :
     have := ensure_idempotent c s st (ensureRoutes c s st).1 b (by rw [← h])
     simp [idemOK, this]
 
+/-! ## non-vacuity of (i), (ii), (iv): a concrete codec, object and script satisfying every hypothesis
+    (these `decide`s are *tests* on literals, not the ∀ claims) -/
+
+/-- a VirtualService with one rule / one stable destination, `labels: {}`, no annotations. -/
+def exObj : Obj :=
+  { spec := some (.obj [("http", .arr [.obj [("route", .arr [.obj [("destination", .obj [("host", .str "svc")])]])]])])
+    labels := some [], annotations := none }
+
+/-- a codec that satisfies the round-trip assumption at `dataOf exObj` (and nowhere else). -/
+def exCodec : Codec where
+  enc d := if d = dataOf exObj then "orig" else "other"
+  dec s := if s = "orig" then dataOf exObj else ⟨.null, [], []⟩
+
+def exRefs : List (Option Script × Obj) := [(some (vsScript "svc" "svc-canary"), exObj)]
+
+def exSplit (stableW canaryW : Int) : J :=
+  .obj [("http", .arr [.obj [("route", .arr [
+    .obj [("destination", .obj [("host", .str "svc")]), ("weight", .int stableW)],
+    .obj [("destination", .obj [("host", .str "svc-canary")]), ("weight", .int canaryW)]])]])]
+
+example : ∀ p, p ∈ exRefs → exCodec.LawfulOn (dataOf p.2) := by
+  intro p hp
+  simp only [exRefs, List.mem_singleton] at hp
+  subst hp
+  exact ⟨by simp [exCodec], by simp [exCodec]⟩
+
+example : ∀ p, p ∈ exRefs → noOrig p.2 = true := by
+  intro p hp
+  simp only [exRefs, List.mem_singleton] at hp
+  subst hp
+  decide
+
+/-- after the steps 20 % and 50 %, the step 30 % succeeds and writes 70 / 30 — not an accumulation. -/
+example :
+    ensureRoutes exCodec ⟨.pct 30, [], none⟩
+      (ensureSeq exCodec [⟨.pct 20, [], none⟩, ⟨.pct 50, [], none⟩] (present exRefs))
+    |>.1.map (·.obj)
+    = [some { spec := some (exSplit 70 30), labels := none, annotations := some [(origKey, "orig")] }] := by decide
+
+example :
+    (ensureRoutes exCodec ⟨.pct 30, [], none⟩
+      (ensureSeq exCodec [⟨.pct 20, [], none⟩, ⟨.pct 50, [], none⟩] (present exRefs))).2 = .ok false := by decide
+
+/-- Finalise after three steps: the user's object up to `normalise` (here `labels: {}` became absent,
+    so the normalisation is not the identity). -/
+example :
+    (finalise exCodec (ensureSeq exCodec [⟨.pct 20, [], none⟩, ⟨.pct 50, [], none⟩, ⟨.pct 30, [], none⟩] (present exRefs)))
+    |>.1.map (·.obj) = [some (normalise exObj)] := by decide
+
+example : normalise exObj ≠ exObj := by decide
+example : normalise exObj = { exObj with labels := none } := by decide
+
+/-- the same step again: done, nothing written. -/
+example :
+    let st := (ensureRoutes exCodec ⟨.pct 30, [], none⟩ (present exRefs)).1
+    (ensureRoutes exCodec ⟨.pct 30, [], none⟩ (present exRefs)).2 = .ok false
+    ∧ (ensureRoutes exCodec ⟨.pct 30, [], none⟩ st).2 = .ok true
+    ∧ (ensureRoutes exCodec ⟨.pct 30, [], none⟩ st).1.map (·.obj) = st.map (·.obj) := by decide
+
 /-! ## (iii) the built-in Istio scripts -/
 
 /-- **C15 (iii) — VirtualService, weight step.**  Whenever the script succeeds on a weight step
@@ -294,6 +364,46 @@ example : vsScript "echoserver" "echoserver-canary"
                       .obj [("destination", .obj [("host", .str "echoserver")]), ("weight", .int 95)],
                       .obj [("destination", .obj [("host", .str "echoserver-canary")]), ("weight", .int 5)]])]])],
            labels := [], annotations := [("virtual", "test")] } := by decide
+
+/-- **C15 (iii) — VirtualService, match step.**  Whenever `GenerateRoutesWithMatches` succeeds on a
+    spec object, the new `http` list is one generated rule per match followed by *all* the user's
+    rules, unchanged and in order; no other field of the spec is touched (`tcp` / `tls` included). -/
+theorem vs_match_step_keeps_rules (stable canary : String) (hm : Option HeaderMod) (mts : List HttpMatch)
+    (kvs : List (String × J)) (S' : J) (h : genMatches stable canary hm mts (.obj kvs) = some S') :
+    ∃ routes rules, routes.length = mts.length
+      ∧ (lookup "http" kvs = some (.arr rules) ∨ (lookup "http" kvs = some (.obj []) ∧ rules = []))
+      ∧ S' = .obj (setKey "http" (.arr (routes ++ rules)) kvs) := by
+  simp only [genMatches, fields?] at h
+  cases hv : mts.mapM vsMatchOf with
+  | none => simp [hv] at h
+  | some vms =>
+    have hlen : vms.length = mts.length := mapM_option_length _ _ _ hv
+    cases hl : lookup "http" kvs with
+    | none => simp [hl] at h
+    | some v =>
+      cases v with
+      | arr rules =>
+        simp [hl, hv] at h
+        exact ⟨(vms.map (matchRoute stable canary hm)).reverse, rules, by simp [hlen], .inl rfl, h.symm⟩
+      | obj o =>
+        cases o with
+        | nil =>
+          simp [hl, hv] at h
+          exact ⟨(vms.map (matchRoute stable canary hm)).reverse, [], by simp [hlen], .inr ⟨rfl, rfl⟩,
+            by simpa using h.symm⟩
+        | cons _ _ => simp [hl, hv] at h
+      | null => simp [hl] at h
+      | bool _ => simp [hl] at h
+      | int _ => simp [hl] at h
+      | str _ => simp [hl] at h
+
+/-- non-vacuity / test of the match step: header match + DestinationRule mode (canary = stable). -/
+example : genMatches "svc" "svc" none [⟨none, [⟨some "Exact", "user", "x"⟩], []⟩]
+    (.obj [("http", .arr [.obj [("route", .arr [.obj [("destination", .obj [("host", .str "svc")])]])]])])
+  = some (.obj [("http", .arr [
+      .obj [("match", .arr [.obj [("headers", .obj [("user", .obj [("exact", .str "x")])])]]),
+            ("route", .arr [.obj [("destination", .obj [("host", .str "svc"), ("subset", .str "canary")])]])],
+      .obj [("route", .arr [.obj [("destination", .obj [("host", .str "svc")])]])]])]) := by decide
 
 /-- **C15 (iii) — DestinationRule.**  Whenever the script succeeds, exactly the canary subset is
     appended to `subsets` and every other field of the spec is kept (`drOK`); labels and annotations
